@@ -4,13 +4,17 @@
  * downtime, with notifications/active checks switched off — and prints one line per operation: the
  * operation, then what the implementation shows afterwards.
  *
- *   C <kind h|s> <max> <volatile> <flapping> <topology>
+ *   C <kind h|s> <max> <volatile> <flapping> <topology> [<paused>]
+ *        paused 1: the object is activated but never gets authority (`paused` stays true): the HA node that does
+ *                  not own the checkable, or an object between Activate() and SetAuthority(true); results are
+ *                  processed there all the same (event::CheckResult) and the property makes no exception for it
  *        topology 0: stand-alone, unregistered object (as test/icinga-checkresult.cpp builds them)
  *                 1: service on a parent host (implicit host dependency) / host with a Dependency on a parent host
  *                 2: explicit Dependency on a parent host that counts soft states too (ignore_soft_states = false,
  *                    parent max_check_attempts 3); a service additionally has its own (never checked) host
  *   S <state> <stype> <attempt> <lastHard> <prevHard> <exec> | <obs>     start state as restored from a state file
- *   R <state> <execStart> <now> <via> | <obs> ; <reachable> <acknowledged> <flapping> <inDowntime>
+ *   R <state> <execStart> <now> <via> [<execEnd>] | <obs> ; <reachable> <acknowledged> <flapping> <inDowntime>
+ *        execEnd (default execStart): the plugin ran from execStart to execEnd; results are ordered by execStart
  *        via 0: passive result, ProcessCheckResult   1: active result, ProcessCheckResult
  *            2: passive result through ApiActions::ProcessCheckResult (exit_status; hosts: 0 = Up, 1 = Down)
  *            3: passive result through the external command PROCESS_HOST_/PROCESS_SERVICE_CHECK_RESULT (registered
@@ -20,6 +24,19 @@
  *   A <0|1|2> <now>        acknowledgement cleared / normal / sticky
  *   D <0|1> <now>          fixed downtime removed / added and triggered (topology 1, 2)
  *   F <notifications> <activeChecks>      enable_notifications / enable_active_checks
+ *   U <0|1>                the object loses / gets authority (Pause / Resume), as on HA failover
+ *   X <stateA> <stateB> <execStart> <now> | <acceptedA> <acceptedB> <state> <stype> <attempt> <lastHard> <hardA> <hardB>
+ *        two results processed CONCURRENTLY: A on a second thread, B on the main thread while A is inside its
+ *        update section (A is held in the first attribute-change signal it raises, object lock taken, until B has
+ *        been started and sleeps).  Observed after both returned: the object's state and, per result, whether
+ *        exactly one hard event was reported for it (0 none, 1 one, 9 more than one event of any kind).  What
+ *   Y <stateA> <stateB> <execStart> <now> | <obs of A> ;; <obs of B> ; <env>
+ *        result A is held in a subscriber of its OnNewCheckResult signal (all attributes written, no lock held) while
+ *        result B is processed completely on the main thread; then A goes on and reports its state change.  Everything
+ *        is deterministic here: the observation of A is taken inside the subscriber, its event afterwards.
+ *   (X:) what
+ *        is read outside the object lock (soft-vs-no event, vars_after, which result ends up as
+ *        last_check_result) is not observed.  Last operation of a case.
  *   <obs> = <accepted> <state> <stype> <attempt> <lastHard> <ev> <prevHard> <vaState> <vaType> <vaAttempt>
  *           <apiState> <apiLastState> <apiLastHard>
  *
@@ -33,6 +50,12 @@
 #include "icinga/downtime.hpp"
 #include "icinga/externalcommandprocessor.hpp"
 #include "remote/messageorigin.hpp"
+#include <atomic>
+#include <chrono>
+#include <mutex>
+#include <thread>
+#include <sys/syscall.h>
+#include <unistd.h>
 
 using namespace icinga;
 using namespace vh;
@@ -40,6 +63,15 @@ using namespace vh;
 static int l_Event = 0; /* 0 none, 1 soft, 2 hard */
 static int l_EventCount = 0;
 static int l_CaseNo = 0;
+/* concurrent pair (X) */
+static std::mutex l_EvMutex;
+static const CheckResult *l_CrA = nullptr, *l_CrB = nullptr;
+static int l_HardA = 0, l_HardB = 0, l_CntA = 0, l_CntB = 0, l_KindA = 0, l_KindB = 0;
+/* overtaken result (Y) */
+static std::atomic<int> l_YPhase{0}; /* 0 idle, 1 armed, 2 A waits in its OnNewCheckResult handler, 3 released */
+static std::atomic<int> l_Phase{0}; /* 0 idle, 1 armed, 2 A is inside its update section, 3 B has been started */
+static std::thread::id l_ThreadA;
+static long l_TidB = 0;
 
 struct World {
 	Host::Ptr parent;      /* the host that P drives */
@@ -49,6 +81,7 @@ struct World {
 	Downtime::Ptr dt;
 	bool host = false;
 	int topo = 0;
+	bool paused = false;
 };
 
 static World l_W;
@@ -89,12 +122,13 @@ static Host::Ptr MakeHost(const std::string& name, int maxAttempts)
 	return h;
 }
 
-static void Setup(bool host, int maxAttempts, bool isVolatile, bool flapping, int topo)
+static void Setup(bool host, int maxAttempts, bool isVolatile, bool flapping, int topo, bool paused = false)
 {
 	Teardown();
 	l_CaseNo++;
 	l_W.host = host;
 	l_W.topo = topo;
+	l_W.paused = paused;
 	std::string sfx = std::to_string(l_CaseNo);
 
 	Checkable::Ptr c;
@@ -129,7 +163,8 @@ static void Setup(bool host, int maxAttempts, bool isVolatile, bool flapping, in
 	if (topo != 0)
 		c->Register();
 	c->Activate();
-	c->SetAuthority(true);
+	if (!paused)
+		c->SetAuthority(true);
 	if (topo != 0)
 		static_pointer_cast<ConfigObject>(c)->OnAllConfigLoaded();
 	l_W.obj = c;
@@ -150,32 +185,43 @@ static void Setup(bool host, int maxAttempts, bool isVolatile, bool flapping, in
 	}
 }
 
-static void PrintObs(int accepted)
+struct ObsVals { int st, ty; long at; int lh, ph, vs, vt; long va; int as, als, alh; };
+
+static ObsVals Capture()
 {
 	const Checkable::Ptr& c = l_W.obj;
 	CheckResult::Ptr lcr = c->GetLastCheckResult();
-	int prevHard = 99, vaS = 9, vaT = 9;
-	long vaA = 0;
+	ObsVals v;
+	v.ph = 99; v.vs = 9; v.vt = 9; v.va = 0;
 	if (lcr) {
-		prevHard = (int)lcr->GetPreviousHardState();
+		v.ph = (int)lcr->GetPreviousHardState();
 		Dictionary::Ptr va = lcr->GetVarsAfter();
 		if (va) {
-			vaS = (int)(double)va->Get("state");
-			vaT = (int)(double)va->Get("state_type");
-			vaA = (long)(double)va->Get("attempt");
+			v.vs = (int)(double)va->Get("state");
+			v.vt = (int)(double)va->Get("state_type");
+			v.va = (long)(double)va->Get("attempt");
 		}
 	}
-	int apiS, apiLS, apiLH;
 	if (l_W.host) {
 		Host::Ptr h = static_pointer_cast<Host>(c);
-		apiS = (int)h->GetState(); apiLS = (int)h->GetLastState(); apiLH = (int)h->GetLastHardState();
+		v.as = (int)h->GetState(); v.als = (int)h->GetLastState(); v.alh = (int)h->GetLastHardState();
 	} else {
 		Service::Ptr s = static_pointer_cast<Service>(c);
-		apiS = (int)s->GetState(); apiLS = (int)s->GetLastState(); apiLH = (int)s->GetLastHardState();
+		v.as = (int)s->GetState(); v.als = (int)s->GetLastState(); v.alh = (int)s->GetLastHardState();
 	}
-	printf("%d %d %d %ld %d %d %d %d %d %ld %d %d %d", accepted,
-		(int)c->GetStateRaw(), (int)c->GetStateType(), (long)c->GetCheckAttempt(), (int)c->GetLastHardStateRaw(), l_Event,
-		prevHard, vaS, vaT, vaA, apiS, apiLS, apiLH);
+	v.st = (int)c->GetStateRaw(); v.ty = (int)c->GetStateType(); v.at = (long)c->GetCheckAttempt();
+	v.lh = (int)c->GetLastHardStateRaw();
+	return v;
+}
+
+static void PrintVals(int accepted, const ObsVals& v, int ev)
+{
+	printf("%d %d %d %ld %d %d %d %d %d %ld %d %d %d", accepted, v.st, v.ty, v.at, v.lh, ev, v.ph, v.vs, v.vt, v.va, v.as, v.als, v.alh);
+}
+
+static void PrintObs(int accepted)
+{
+	PrintVals(accepted, Capture(), l_Event);
 }
 
 static void DoStart(int state, int stype, long attempt, int lastHard, int prevHard, long long exec)
@@ -202,8 +248,10 @@ static void DoStart(int state, int stype, long attempt, int lastHard, int prevHa
 	printf("\n");
 }
 
-static void DoResult(int state, long long execStart, long long now, int via)
+static void DoResult(int state, long long execStart, long long now, int via, long long execEnd = -1)
 {
+	if (execEnd < execStart)
+		execEnd = execStart;
 	const Checkable::Ptr& c = l_W.obj;
 	SetNow((double)now);
 	l_Event = 0;
@@ -222,7 +270,7 @@ static void DoResult(int state, long long execStart, long long now, int via)
 			{ "exit_status", l_W.host ? (state == 0 ? 0 : 1) : state },
 			{ "plugin_output", "harness" },
 			{ "execution_start", (double)execStart },
-			{ "execution_end", (double)execStart }
+			{ "execution_end", (double)execEnd }
 		});
 		Dictionary::Ptr res = ApiActions::ProcessCheckResult(c, params);
 		accepted = (c->GetLastCheckResult() != before) ? 1 : 0;
@@ -239,7 +287,10 @@ static void DoResult(int state, long long execStart, long long now, int via)
 		}
 		accepted = (c->GetLastCheckResult() != before) ? 1 : 0;
 	} else {
-		CheckResult::Ptr cr = MakeCr((ServiceState)state, (double)execStart, (double)execStart, via != 0);
+		CheckResult::Ptr cr = MakeCr((ServiceState)state, (double)execStart, (double)execEnd, via != 0);
+		/* four different timestamps: the order of results is that of their execution start, nothing else */
+		cr->SetScheduleStart((double)execStart - 7);
+		cr->SetScheduleEnd((double)execEnd + 7);
 		MessageOrigin::Ptr origin;
 		if (via == 4)
 			origin = new MessageOrigin();
@@ -248,7 +299,7 @@ static void DoResult(int state, long long execStart, long long now, int via)
 	}
 	if (l_EventCount > 1)
 		l_Event = 9; /* more than one OnStateChange for one result: never valid */
-	printf("R %d %lld %lld %d | ", state, execStart, now, via);
+	printf("R %d %lld %lld %d %lld | ", state, execStart, now, via, execEnd);
 	PrintObs(accepted);
 	printf(" ; %d %d %d %d\n", reach, acked, c->IsFlapping() ? 1 : 0, indt);
 }
@@ -317,10 +368,143 @@ static void DoFlags(int notif, int active)
 	l_W.obj->SetEnableActiveChecks(active != 0);
 }
 
-static void Header(bool host, int mx, bool vol, bool flap, int topo)
+static void DoAuthority(int auth)
 {
-	printf("C %c %d %d %d %d\n", host ? 'h' : 's', mx, vol ? 1 : 0, flap ? 1 : 0, topo);
-	Setup(host, mx, vol, flap, topo);
+	printf("U %d |\n", auth);
+	l_W.obj->SetAuthority(auth != 0);
+}
+
+static char TaskState(long tid)
+{
+	char path[64], buf[256];
+	snprintf(path, sizeof path, "/proc/self/task/%ld/stat", tid);
+	FILE *f = fopen(path, "r");
+	if (!f)
+		return '?';
+	size_t n = fread(buf, 1, sizeof buf - 1, f);
+	fclose(f);
+	buf[n] = 0;
+	const char *p = strrchr(buf, ')');
+	return (p && p[1] == ' ') ? p[2] : '?';
+}
+
+/* runs on thread A, inside ProcessCheckResult, object lock held: wait until B has been started and went to sleep */
+static void StallA()
+{
+	using namespace std::chrono;
+	l_Phase = 2;
+	auto t0 = steady_clock::now();
+	while (l_Phase.load() != 3 && steady_clock::now() - t0 < seconds(5))
+		std::this_thread::sleep_for(microseconds(100));
+	t0 = steady_clock::now();
+	int asleep = 0;
+	while (asleep < 2 && steady_clock::now() - t0 < milliseconds(200)) {
+		asleep = (TaskState(l_TidB) == 'S') ? asleep + 1 : 0;
+		std::this_thread::sleep_for(microseconds(300));
+	}
+	std::this_thread::sleep_for(milliseconds(1));
+}
+
+static void DoConcurrent(int stateA, int stateB, long long execStart, long long now)
+{
+	const Checkable::Ptr c = l_W.obj;
+	SetNow((double)now);
+	CheckResult::Ptr crA = MakeCr((ServiceState)stateA, (double)execStart, (double)execStart, true);
+	CheckResult::Ptr crB = MakeCr((ServiceState)stateB, (double)execStart, (double)execStart, false);
+	{
+		std::unique_lock<std::mutex> lock(l_EvMutex);
+		l_CrA = crA.get(); l_CrB = crB.get();
+		l_HardA = l_HardB = l_CntA = l_CntB = l_KindA = l_KindB = 0;
+	}
+	l_TidB = (long)syscall(SYS_gettid);
+	std::atomic<int> resA{-1};
+	std::atomic<bool> armed{false};
+	std::thread first([&]() {
+		l_ThreadA = std::this_thread::get_id();
+		l_Phase = 1;
+		armed = true;
+		resA = (c->ProcessCheckResult(crA) == Checkable::ProcessingResult::Ok) ? 1 : 0;
+	});
+	while (!armed.load() || (l_Phase.load() != 2 && resA.load() < 0))
+		std::this_thread::sleep_for(std::chrono::microseconds(100));
+	l_Phase = 3;
+	int accB = (c->ProcessCheckResult(crB) == Checkable::ProcessingResult::Ok) ? 1 : 0;
+	first.join();
+	l_Phase = 0;
+	int hardA, hardB;
+	{
+		std::unique_lock<std::mutex> lock(l_EvMutex);
+		hardA = l_CntA > 1 ? 9 : l_HardA;
+		hardB = l_CntB > 1 ? 9 : l_HardB;
+		l_CrA = l_CrB = nullptr;
+	}
+	if (getenv("C01_DEBUG_PAIR")) {
+		Dictionary::Ptr va = crA->GetVarsAfter();
+		fprintf(stderr, "pair cntA=%d cntB=%d vaA=%d/%d final=%d/%ld lcr=%s\n", l_CntA, l_CntB,
+			va ? (int)(double)va->Get("state_type") : -1, va ? (int)(double)va->Get("attempt") : -1,
+			(int)c->GetStateType(), (long)c->GetCheckAttempt(), c->GetLastCheckResult() == crA ? "A" : "B");
+	}
+	printf("X %d %d %lld %lld | %d %d %d %d %ld %d %d %d\n", stateA, stateB, execStart, now, resA.load(), accB,
+		(int)c->GetStateRaw(), (int)c->GetStateType(), (long)c->GetCheckAttempt(), (int)c->GetLastHardStateRaw(), hardA, hardB);
+}
+
+static ObsVals l_SnapA;
+
+/* Y <stateA> <stateB> <execStart> <now> | <obs of A> ;; <obs of B>
+ * Result A (active, second thread) is processed up to and including its OnNewCheckResult signal - every attribute is
+ * written, both locked sections are over - and is held in a handler of that signal, as a slow subscriber (database
+ * writer, event stream) holds it; meanwhile result B (passive, main thread) is processed completely; then A goes on
+ * and reports its state change.  The observation of A is taken inside the handler, its event afterwards. */
+static void DoOvertaken(int stateA, int stateB, long long execStart, long long now)
+{
+	const Checkable::Ptr c = l_W.obj;
+	SetNow((double)now);
+	CheckResult::Ptr crA = MakeCr((ServiceState)stateA, (double)execStart, (double)execStart, true);
+	CheckResult::Ptr crB = MakeCr((ServiceState)stateB, (double)execStart, (double)execStart, false);
+	{
+		std::unique_lock<std::mutex> lock(l_EvMutex);
+		l_CrA = crA.get(); l_CrB = crB.get();
+		l_HardA = l_HardB = l_CntA = l_CntB = l_KindA = l_KindB = 0;
+	}
+	int reach = c->IsReachable() ? 1 : 0, acked = c->IsAcknowledged() ? 1 : 0, indt = c->IsInDowntime() ? 1 : 0;
+	std::atomic<int> resA{-1};
+	l_YPhase = 1;
+	std::thread first([&]() {
+		resA = (c->ProcessCheckResult(crA) == Checkable::ProcessingResult::Ok) ? 1 : 0;
+	});
+	while (l_YPhase.load() != 2 && resA.load() < 0)
+		std::this_thread::sleep_for(std::chrono::microseconds(50));
+	bool held = l_YPhase.load() == 2;
+	if (!held) {
+		/* A was not processed (no signal): nothing overlaps */
+		first.join();
+		l_SnapA = Capture();
+	}
+	int accB = (c->ProcessCheckResult(crB) == Checkable::ProcessingResult::Ok) ? 1 : 0;
+	ObsVals snapB = Capture();
+	int flapB = c->IsFlapping() ? 1 : 0;
+	l_YPhase = 3;
+	if (held)
+		first.join();
+	l_YPhase = 0;
+	int evA, evB;
+	{
+		std::unique_lock<std::mutex> lock(l_EvMutex);
+		evA = l_CntA > 1 ? 9 : l_KindA;
+		evB = l_CntB > 1 ? 9 : l_KindB;
+		l_CrA = l_CrB = nullptr;
+	}
+	printf("Y %d %d %lld %lld | ", stateA, stateB, execStart, now);
+	PrintVals(resA.load(), l_SnapA, evA);
+	printf(" ;; ");
+	PrintVals(accB, snapB, evB);
+	printf(" ; %d %d %d %d\n", reach, acked, flapB, indt);
+}
+
+static void Header(bool host, int mx, bool vol, bool flap, int topo, bool paused = false)
+{
+	printf("C %c %d %d %d %d %d\n", host ? 'h' : 's', mx, vol ? 1 : 0, flap ? 1 : 0, topo, paused ? 1 : 0);
+	Setup(host, mx, vol, flap, topo, paused);
 }
 
 /* ---- generators ---- */
@@ -400,6 +584,108 @@ static void EnumerateUnreachable(int len, int maxMax)
 	}
 }
 
+/* every result sequence of the given length on an object that never got authority (paused), stand-alone and
+ * below a parent; in a third of the cases authority arrives / is lost again in the middle */
+static void EnumeratePaused(int len, int maxMax)
+{
+	long total = 1;
+	for (int i = 0; i < len; i++) total *= 4;
+	for (int host = 0; host < 2; host++)
+	for (int topo = 0; topo < 2; topo++)
+	for (int mx = 1; mx <= maxMax; mx++)
+	for (int vol = 0; vol < 2; vol++)
+	for (int flip = 0; flip < 3; flip++)
+	for (long code = 0; code < total; code++) {
+		long c = code;
+		Header(host, mx, vol, false, topo, flip != 2);
+		long long t = 1000;
+		for (int i = 0; i < len; i++) {
+			t += 10;
+			if (flip != 0 && i == len / 2)
+				DoAuthority(flip == 1 ? 1 : 0);
+			DoResult((int)(c % 4), t, t, i % 2);
+			c /= 4;
+		}
+	}
+}
+
+/* every sequence of the given length of (state, timing): checks that run for a while and results whose execution
+ * starts while the previous check was still running (passive result during a long-running plugin, overlapping
+ * executions through command_endpoint), processed after the previous one ended.  Results are ordered by their
+ * execution START (checkable-check.cpp:184-185); none of these is older than its predecessor. */
+static void EnumerateOverlap(int len, int maxMax)
+{
+	long total = 1;
+	for (int i = 0; i < len; i++) total *= 16;
+	for (int host = 0; host < 2; host++)
+	for (int mx = 2; mx <= maxMax; mx++)
+	for (long code = 0; code < total; code++) {
+		long c = code;
+		Header(host, mx, false, false, 0);
+		long long clock = 1000, prevStart = 0, prevEnd = 0;
+		for (int i = 0; i < len; i++) {
+			int state = (int)(c % 4), timing = (int)((c / 4) % 4);
+			c /= 16;
+			long long s, e;
+			bool inside = (timing == 1 || timing == 2) && i > 0;
+			if (inside)
+				s = (prevEnd > prevStart) ? prevStart + 3 : prevStart;
+			else
+				s = clock + 2;
+			e = (timing == 0 || timing == 2) ? s + 8 : s;
+			if (e > clock) clock = e;
+			DoResult(state, s, clock, (timing == 1) ? 0 : 1, e);
+			prevStart = s; prevEnd = e;
+		}
+	}
+}
+
+/* two results processed concurrently after every short prefix */
+static void EnumerateConcurrent(int maxMax)
+{
+	static const int prefixes[7][4] = {
+		{ -1, -1, -1, -1 }, { 0, -1, -1, -1 }, { 0, 2, -1, -1 }, { 0, 2, 2, -1 }, { 2, -1, -1, -1 }, { 0, 1, 3, -1 }, { 0, 2, 2, 2 }
+	};
+	for (int host = 0; host < 2; host++)
+	for (int mx = 1; mx <= maxMax; mx++)
+	for (int vol = 0; vol < 2; vol++)
+	for (int pi = 0; pi < 7; pi++)
+	for (int a = 0; a < 4; a++)
+	for (int b = 0; b < 4; b++) {
+		if (vol && (pi == 5 || pi == 6))
+			continue;
+		Header(host, mx, vol, false, 0);
+		long long t = 1000;
+		for (int i = 0; i < 4 && prefixes[pi][i] >= 0; i++) { t += 10; DoResult(prefixes[pi][i], t, t, 1); }
+		t += 10;
+		DoConcurrent(a, b, t, t);
+	}
+}
+
+/* an overtaken result after every short prefix, followed by one more result */
+static void EnumerateOvertaken(int maxMax)
+{
+	static const int prefixes[6][4] = {
+		{ 0, -1, -1, -1 }, { 0, 2, -1, -1 }, { 0, 2, 2, -1 }, { 2, -1, -1, -1 }, { 0, 1, 3, -1 }, { 0, 2, 2, 2 }
+	};
+	for (int host = 0; host < 2; host++)
+	for (int mx = 1; mx <= maxMax; mx++)
+	for (int vol = 0; vol < 2; vol++)
+	for (int pi = 0; pi < 6; pi++)
+	for (int a = 0; a < 4; a++)
+	for (int b = 0; b < 4; b++) {
+		if (vol && pi >= 4)
+			continue;
+		Header(host, mx, vol, false, 0);
+		long long t = 1000;
+		for (int i = 0; i < 4 && prefixes[pi][i] >= 0; i++) { t += 10; DoResult(prefixes[pi][i], t, t, 1); }
+		t += 10;
+		DoOvertaken(a, b, t, t);
+		t += 10;
+		DoResult((a + b) % 4, t, t, 1);
+	}
+}
+
 static void RandomCase(Rng& rng, int maxLen)
 {
 	bool host = rng.coin();
@@ -408,14 +694,16 @@ static void RandomCase(Rng& rng, int maxLen)
 	bool flap = rng.coin();
 	int topo = rng.below(3) == 0 ? 0 : 1 + (int)rng.below(2);
 	int len = 1 + (int)rng.below(maxLen);
-	int tsMode = (int)rng.below(2);
+	int tsMode = (int)rng.below(3);
+	bool paused = rng.below(5) == 0;
+	bool concurrentEnd = rng.below(8) == 0;
 	int envRate = (int)rng.below(3) == 0 ? 0 : 2 + (int)rng.below(8); /* one environment op every envRate results */
 	bool useApi = rng.below(3) == 0;
 	/* bias: long runs of non-OK so that large max values are reached */
 	int pOk = 1 + (int)rng.below(6);
-	Header(host, mx, vol, flap, topo);
+	Header(host, mx, vol, flap, topo, paused);
 	long long t = 1000;
-	long long lastExec = t;
+	long long lastExec = t, lastEnd = t;
 	if (rng.below(4) == 0) {
 		int st = (int)rng.below(4);
 		int lh = vol && rng.below(4) != 0 ? st : (int)rng.below(4);
@@ -424,7 +712,8 @@ static void RandomCase(Rng& rng, int maxLen)
 	for (int j = 0; j < len; j++) {
 		if (envRate && rng.below(envRate) == 0) {
 			t += 1;
-			switch (rng.below(4)) {
+			switch (rng.below(paused ? 5 : 4)) {
+				case 4: DoAuthority((int)rng.below(2)); break;
 				case 0: DoParent(rng.below(3) == 0 ? 0 : 2 + (int)rng.below(2), t); break;
 				case 1: DoAck((int)rng.below(3), t); break;
 				case 2: DoDowntime((int)rng.below(2), t); break;
@@ -432,9 +721,19 @@ static void RandomCase(Rng& rng, int maxLen)
 			}
 		}
 		int state = (rng.below(10) < (uint64_t)pOk) ? (int)rng.below(2) : 2 + (int)rng.below(2);
-		long long exec, now;
+		long long exec, now, end = -1;
 		if (tsMode == 0) {
 			t += 10; exec = t; now = t;
+		} else if (tsMode == 2) {
+			/* checks that take a while; some start while the previous one was still running */
+			int k = (int)rng.below(4);
+			if (k == 0 && lastEnd > lastExec)
+				exec = lastExec + (long long)rng.below((uint64_t)(lastEnd - lastExec));
+			else
+				exec = t + 1 + (long long)rng.below(5);
+			end = exec + (rng.coin() ? 0 : (long long)rng.below(30));
+			if (end > t) t = end;
+			now = t;
 		} else {
 			/* timestamps: mostly increasing, sometimes equal, sometimes older (stale), sometimes in the future */
 			int k = (int)rng.below(10);
@@ -449,8 +748,13 @@ static void RandomCase(Rng& rng, int maxLen)
 		}
 		int via = (useApi && rng.below(3) == 0) ? 2 + (int)rng.below(3) : (int)rng.below(2);
 		CheckResult::Ptr before = l_W.obj->GetLastCheckResult();
-		DoResult(state, exec, now, via);
-		if (l_W.obj->GetLastCheckResult() != before) lastExec = exec;
+		DoResult(state, exec, now, via, end);
+		if (l_W.obj->GetLastCheckResult() != before) { lastExec = exec; lastEnd = end < exec ? exec : end; }
+	}
+	if (concurrentEnd) {
+		/* not older than anything accepted so far, whatever the timestamp mode */
+		long long exec = (lastExec > t ? lastExec : t) + 1;
+		DoConcurrent((int)rng.below(4), (int)rng.below(4), exec, exec > t ? exec : t);
 	}
 }
 
@@ -459,11 +763,27 @@ int main(int argc, char **argv)
 	if (argc < 2) { fprintf(stderr, "usage: h_c01 gen|ops ...\n"); return 2; }
 	InitIcinga();
 
-	Checkable::OnStateChange.connect([](const Checkable::Ptr& obj, const CheckResult::Ptr&, StateType type, const MessageOrigin::Ptr&) {
+	Checkable::OnStateChange.connect([](const Checkable::Ptr& obj, const CheckResult::Ptr& cr, StateType type, const MessageOrigin::Ptr&) {
 		if (obj != l_W.obj)
 			return; /* the parent's own state changes */
+		std::unique_lock<std::mutex> lock(l_EvMutex);
+		if (cr && cr.get() == l_CrA) { l_CntA++; l_KindA = (type == StateTypeHard) ? 2 : 1; if (type == StateTypeHard) l_HardA = 1; return; }
+		if (cr && cr.get() == l_CrB) { l_CntB++; l_KindB = (type == StateTypeHard) ? 2 : 1; if (type == StateTypeHard) l_HardB = 1; return; }
 		l_Event = (type == StateTypeHard) ? 2 : 1;
 		l_EventCount++;
+	});
+	Checkable::OnNewCheckResult.connect([](const Checkable::Ptr& obj, const CheckResult::Ptr& cr, const MessageOrigin::Ptr&) {
+		if (l_YPhase.load() != 1 || obj != l_W.obj || !cr || cr.get() != l_CrA)
+			return;
+		l_SnapA = Capture();
+		l_YPhase = 2;
+		auto t0 = std::chrono::steady_clock::now();
+		while (l_YPhase.load() != 3 && std::chrono::steady_clock::now() - t0 < std::chrono::seconds(10))
+			std::this_thread::sleep_for(std::chrono::microseconds(50));
+	});
+	Checkable::OnLastStateRawChanged.connect([](const Checkable::Ptr& obj, const Value&) {
+		if (l_Phase.load() == 1 && obj == l_W.obj && std::this_thread::get_id() == l_ThreadA)
+			StallA();
 	});
 
 	std::string mode = argv[1];
@@ -474,6 +794,10 @@ int main(int argc, char **argv)
 		EnumeratePending(thorough ? 7 : 5, 4);
 		EnumerateStarts(thorough ? 4 : 3, 3);
 		EnumerateUnreachable(thorough ? 5 : 4, 3);
+		EnumeratePaused(thorough ? 5 : 4, 3);
+		EnumerateOverlap(thorough ? 4 : 3, 3);
+		EnumerateConcurrent(thorough ? 4 : 3);
+		EnumerateOvertaken(thorough ? 4 : 3);
 		/* random part: long histories, larger max_check_attempts, arbitrary timestamps, environment changes */
 		Rng rng(seed);
 		int n = thorough ? 20000 : 2000;
@@ -488,9 +812,9 @@ int main(int argc, char **argv)
 		char line[512];
 		while (fgets(line, sizeof line, f)) {
 			if (line[0] == 'C') {
-				char k; int mx, vol, flap, topo = 0;
-				if (sscanf(line, "C %c %d %d %d %d", &k, &mx, &vol, &flap, &topo) < 4) { fprintf(stderr, "bad C line\n"); return 2; }
-				Header(k == 'h', mx, vol != 0, flap != 0, topo);
+				char k; int mx, vol, flap, topo = 0, paused = 0;
+				if (sscanf(line, "C %c %d %d %d %d %d", &k, &mx, &vol, &flap, &topo, &paused) < 4) { fprintf(stderr, "bad C line\n"); return 2; }
+				Header(k == 'h', mx, vol != 0, flap != 0, topo, paused != 0);
 				continue;
 			}
 			if (!l_W.obj) {
@@ -498,9 +822,9 @@ int main(int argc, char **argv)
 				continue;
 			}
 			if (line[0] == 'R') {
-				int st, via; long long exec, now;
-				if (sscanf(line, "R %d %lld %lld %d", &st, &exec, &now, &via) != 4) { fprintf(stderr, "bad R line\n"); return 2; }
-				DoResult(st, exec, now, via);
+				int st, via; long long exec, now, end = -1;
+				if (sscanf(line, "R %d %lld %lld %d %lld", &st, &exec, &now, &via, &end) < 4) { fprintf(stderr, "bad R line\n"); return 2; }
+				DoResult(st, exec, now, via, end);
 			} else if (line[0] == 'S') {
 				int st, ty, lh, ph; long at; long long exec;
 				if (sscanf(line, "S %d %d %ld %d %d %lld", &st, &ty, &at, &lh, &ph, &exec) != 6) { fprintf(stderr, "bad S line\n"); return 2; }
@@ -517,6 +841,18 @@ int main(int argc, char **argv)
 				int m; long long now;
 				if (sscanf(line, "D %d %lld", &m, &now) != 2) { fprintf(stderr, "bad D line\n"); return 2; }
 				DoDowntime(m, now);
+			} else if (line[0] == 'U') {
+				int a;
+				if (sscanf(line, "U %d", &a) != 1) { fprintf(stderr, "bad U line\n"); return 2; }
+				DoAuthority(a);
+			} else if (line[0] == 'X') {
+				int a, b; long long exec, now;
+				if (sscanf(line, "X %d %d %lld %lld", &a, &b, &exec, &now) != 4) { fprintf(stderr, "bad X line\n"); return 2; }
+				DoConcurrent(a, b, exec, now);
+			} else if (line[0] == 'Y') {
+				int a, b; long long exec, now;
+				if (sscanf(line, "Y %d %d %lld %lld", &a, &b, &exec, &now) != 4) { fprintf(stderr, "bad Y line\n"); return 2; }
+				DoOvertaken(a, b, exec, now);
 			} else if (line[0] == 'F') {
 				int a, b;
 				if (sscanf(line, "F %d %d", &a, &b) != 2) { fprintf(stderr, "bad F line\n"); return 2; }
